@@ -234,6 +234,16 @@ theorem client_delta {p : Params} {s : St} {c : Client} {r : St × Client} (hr :
     by_cases hz : s.pending = 0
     · rw [if_pos hz] at hr; simp at hr; subst hr; exact ⟨rfl, rfl, rfl⟩
     · rw [if_neg hz] at hr; simp at hr
+  case wa n =>
+    simp only [clientStep] at hr
+    split at hr
+    · simp at hr
+    · split at hr <;> (simp at hr; subst hr; exact ⟨rfl, rfl, rfl⟩)
+  case waSleep n =>
+    simp only [clientStep] at hr
+    split at hr
+    · simp at hr; subst hr; exact ⟨rfl, rfl, rfl⟩
+    · simp at hr
 
 /-- A client that does not hold the pool lock cannot change the lock-protected bookkeeping while someone
 else holds the lock. -/
@@ -271,6 +281,16 @@ theorem client_unlocked {p : Params} {s : St} {c : Client} {r : St × Client} (h
     · simp at hr; subst hr; exact ⟨rfl, rfl⟩
     · simp at hr
   case wz =>
+    simp only [clientStep] at hr
+    split at hr
+    · simp at hr; subst hr; exact ⟨rfl, rfl⟩
+    · simp at hr
+  case wa n =>
+    simp only [clientStep] at hr
+    split at hr
+    · simp at hr
+    · split at hr <;> (simp at hr; subst hr; exact ⟨rfl, rfl⟩)
+  case waSleep n =>
     simp only [clientStep] at hr
     split at hr
     · simp at hr; subst hr; exact ⟨rfl, rfl⟩
@@ -337,8 +357,16 @@ theorem client_own {p : Params} {s : St} {c : Client} {r : St × Client} (hr : r
     split at hr
     · simp at hr; subst hr; simp
     · simp at hr
-
-
+  case wa n =>
+    simp only [clientStep] at hr
+    split at hr
+    · simp at hr
+    · split at hr <;> (simp at hr; subst hr; simp)
+  case waSleep n =>
+    simp only [clientStep] at hr
+    split at hr
+    · simp at hr; subst hr; simp
+    · simp at hr
 
 structure TI (p : Params) (c : Cfg St Thr) : Prop where
   w1 : b2n c.1.writer = c.2.countP Thr.locked
@@ -678,6 +706,7 @@ theorem client_os {p : Params} {s : St} {c : Client} {r : St × Client} (hr : r 
       · exact ⟨same rfl rfl, rfl⟩
       · exact ⟨same rfl rfl, rfl⟩
       · exact ⟨same rfl rfl, rfl⟩
+      · exact ⟨same rfl rfl, rfl⟩
   case sub t =>
     simp only [clientStep, List.mem_map] at hr
     obtain ⟨q, hq, rfl⟩ := hr
@@ -733,6 +762,16 @@ theorem client_os {p : Params} {s : St} {c : Client} {r : St × Client} (hr : r 
     · simp at hr; subst hr; exact ⟨same rfl rfl, rfl⟩
     · simp at hr
   case wz =>
+    simp only [clientStep] at hr
+    split at hr
+    · simp at hr; subst hr; exact ⟨same rfl rfl, rfl⟩
+    · simp at hr
+  case wa n =>
+    simp only [clientStep] at hr
+    split at hr
+    · simp at hr
+    · split at hr <;> (simp at hr; subst hr; exact ⟨same rfl rfl, rfl⟩)
+  case waSleep n =>
     simp only [clientStep] at hr
     split at hr
     · simp at hr; subst hr; exact ⟨same rfl rfl, rfl⟩
